@@ -223,8 +223,10 @@ def run_check(prop, tier, seed, replay=None, update_baseline=False):
         'wall_s': round(time.time() - t_start, 2),
         'violations': len(violations),
     }
-    os.makedirs(os.path.join(HERE, 'evidence'), exist_ok=True)
-    with open(os.path.join(HERE, 'evidence', '%s.json' % prop), 'w') as f:
+    # (seed runs redirect the evidence so that they do not overwrite the evidence of the unchanged tree)
+    evdir = os.environ.get('VERIF_EVIDENCE_DIR') or os.path.join(HERE, 'evidence')
+    os.makedirs(evdir, exist_ok=True)
+    with open(os.path.join(evdir, '%s.json' % prop), 'w') as f:
         json.dump(ev, f, indent=1, default=str)
 
     print('%s [%s]: %d obligations, %d discharged, %d refuted, %d undecided; %d functions under contract; '
